@@ -17,7 +17,7 @@ import (
 func init() {
 	fw.Register(&fw.Check{
 		ID: "C01",
-		Rule: "Each case: a seeded config struct type built with reflect.StructOf (depth <=3 quick / <=4 thorough, 1-7 fields per struct; leaves from 48 kinds: every integer width, floats, complex, bool, string, duration, time.Time, net.IP, a harness TextUnmarshaler, slices, maps, sets, arrays, slices/arrays of structs, user-declared pointers, named types; nested / pointer / embedded / embedded-pointer structs; skipped fields - unexported, dials:\"-\", chan, func - in any position), random defaults, 1-5 layers with seeded set/unset patterns (values unique per case, occasionally empty-but-non-nil collections), " +
+		Rule: "Each case: a seeded config struct type built with reflect.StructOf (depth <=3 quick / <=4 thorough, 1-7 fields per struct; leaves from 48 kinds: every integer width, floats, complex, bool, string, duration, time.Time, net.IP, a harness TextUnmarshaler, slices, maps, sets, arrays, slices/arrays of structs, user-declared pointers, named types; nested / pointer / embedded / embedded-pointer structs; skipped fields - unexported, dials:\"-\", chan, func - in any position), random defaults (same-typed pointer leaves sometimes pointing at one variable), 1-5 layers (a quarter of the cases list one layer's value object a second time, later) with seeded set/unset patterns (values unique per case, occasionally empty-but-non-nil collections), " +
 			"materialised BY FIELD NAME into ptrify.Pointerify(T, defaults) and stacked by the real compose (build-tagged export). Oracle: an independent reference stack over leaf paths (clone defaults, assign each set leaf in layer order, allocate a nil *struct only when a child is set), compared with a strict differ (floats bitwise, nil vs empty, chan/func identity); result type must be *T; inserting an all-unset layer at a random position must change nothing. " +
 			"Plus a static corpus (types with genuinely unexported defaulted fields, embedded named structs) through the public dials.Config API. distinct_nontrivial = distinct (type-shape signature, set-pattern matrix) among cases with >=2 layers and >=1 leaf set by two layers.",
 		Assumptions: []string{
@@ -26,7 +26,7 @@ func init() {
 		},
 		MinDistinct: map[string]int{"quick": 5000, "thorough": 200000},
 		MinCounters: map[string]map[string]int64{
-			"quick":    {"leaves_compared": 100000, "cases_with_skipped_field_between_set_leaves": 1500, "metamorphic_empty_layer_checks": 3000, "static_corpus_cases": 200},
+			"quick":    {"cases_with_one_layer_object_listed_twice": 2000, "default_pointer_leaves_sharing_a_pointee": 150, "static_cases_with_defaults_sharing_a_pointee": 1500, "leaves_compared": 100000, "cases_with_skipped_field_between_set_leaves": 1500, "metamorphic_empty_layer_checks": 3000, "static_corpus_cases": 200},
 			"thorough": {"leaves_compared": 5000000},
 		},
 		Plan: func(tier string) fw.Plan {
@@ -132,6 +132,10 @@ func runC01(w *fw.Worker) {
 		c := &gen.Counter{}
 		leaves := spec.LeafRefs()
 		defaults := spec.RandomDefaults(r, c, r.Range(20, 80))
+		// some applications point two settings at one variable: the leaves stay separate leaves for precedence
+		if n := c01ShareDefaultPointees(r, defaults); n > 0 {
+			w.Count("default_pointer_leaves_sharing_a_pointee", int64(n))
+		}
 		defPtr := reflect.New(spec.Type())
 		defPtr.Elem().Set(defaults)
 		defClone := gen.CloneValue(defaults)
@@ -153,6 +157,13 @@ func runC01(w *fw.Worker) {
 			for lr := range layers[k].Vals {
 				setFields[lr.Leaf()] = true
 			}
+		}
+		if nLayers >= 2 && r.Chance(25) {
+			// the very same value object listed again later (one source given twice, or a source that caches its value)
+			j := r.Intn(nLayers - 1)
+			layers, vals = append(layers, layers[j]), append(vals, vals[j])
+			nLayers++
+			w.Count("cases_with_one_layer_object_listed_twice", 1)
 		}
 		matrix, double := setMatrix(leaves, layers)
 		witness := func() any {
@@ -206,6 +217,49 @@ func runC01(w *fw.Worker) {
 			w.Sample(witness())
 		}
 	})
+}
+
+// c01ShareDefaultPointees makes some same-typed non-nil pointer-to-non-struct fields of the defaults point at one
+// variable (they hold equal values afterwards). Returns how many fields were redirected.
+func c01ShareDefaultPointees(r *fw.Rand, v reflect.Value) int {
+	byType := map[reflect.Type][]reflect.Value{}
+	var walk func(v reflect.Value)
+	walk = func(v reflect.Value) {
+		switch v.Kind() {
+		case reflect.Ptr:
+			if v.IsNil() {
+				return
+			}
+			if v.Type().Elem().Kind() == reflect.Struct {
+				walk(v.Elem())
+			} else if v.CanSet() {
+				byType[v.Type()] = append(byType[v.Type()], v)
+			}
+		case reflect.Struct:
+			for k := 0; k < v.NumField(); k++ {
+				if v.Type().Field(k).IsExported() {
+					walk(v.Field(k))
+				}
+			}
+		}
+	}
+	walk(v)
+	n := 0
+	types := make([]reflect.Type, 0, len(byType))
+	for t := range byType {
+		types = append(types, t)
+	}
+	sort.Slice(types, func(a, b int) bool { return types[a].String() < types[b].String() })
+	for _, t := range types {
+		l := byType[t]
+		for k := 1; k < len(l); k++ {
+			if r.Chance(60) {
+				l[k].Set(l[0])
+				n++
+			}
+		}
+	}
+	return n
 }
 
 // c01Classify names the kind of the field at the diff path.
@@ -269,6 +323,9 @@ type c01Static struct {
 	F    func() int
 	Last float64
 	P    *int
+	// Q may default to the same variable as P; Burst may default to the address of First
+	Q     *int
+	Burst *int
 }
 
 type c01Src struct{ v reflect.Value }
@@ -330,8 +387,25 @@ func c01StaticCase(w *fw.Worker, i int, r *fw.Rand) {
 		C01Emb *embL `name:"c01Emb"`
 		Last   *float64
 		P      *int
+		Q      *int
+		Burst  *int
+	}
+	shareMode := r.Intn(3)
+	switch shareMode {
+	case 1:
+		def.Q = def.P
+	case 2:
+		def.Burst = &def.First
 	}
 	want := *def
+	if def.Q != nil {
+		q := *def.Q
+		want.Q = &q
+	}
+	if def.Burst != nil {
+		b := *def.Burst
+		want.Burst = &b
+	}
 	want.Inner.Tags = append([]string(nil), def.Inner.Tags...)
 	if def.PInner != nil {
 		cp := *def.PInner
@@ -343,10 +417,22 @@ func c01StaticCase(w *fw.Worker, i int, r *fw.Rand) {
 	for k := 0; k < n; k++ {
 		var l layer
 		next := func() int { uniq++; return uniq }
-		if r.Bool() {
+		if r.Bool() && shareMode != 2 {
 			v := next()
 			l.First = &v
 			want.First = v
+		}
+		if r.Bool() && shareMode == 1 {
+			v := next()
+			l.Q = &v
+			vv := v
+			want.Q = &vv
+		}
+		if r.Bool() && shareMode == 2 {
+			v := next()
+			l.Burst = &v
+			vv := v
+			want.Burst = &vv
 		}
 		if r.Bool() {
 			v := fmt.Sprint("s", next())
@@ -425,6 +511,9 @@ func c01StaticCase(w *fw.Worker, i int, r *fw.Rand) {
 		return
 	}
 	w.Count("static_corpus_cases", 1)
+	if shareMode != 0 {
+		w.Count("static_cases_with_defaults_sharing_a_pointee", 1)
+	}
 }
 
 // c01SrcNamed materialises a layer struct into the pointerified type by name, skipping fields dials does not expose.
